@@ -97,10 +97,22 @@ def main():
     # operator cases last so that chunks of trace cases (one program each: their bodies reuse variable names) come first
     n_trace = len([c for c in allc if c in cases or c in tr])
     os.environ.setdefault('VERIF_C16_TRACE', str(n_trace))
-    return runner.run_property('C16', allc, tier=tier, chunk=1, minify=True,
+    # kernel part (gosym engine): removeWhitespace and newVariable as standalone kernels
+    sys.path.insert(0, HERE)
+    import check_kernel
+    konly = bool(only and only.startswith('VHarness'))
+    krc, kev = check_kernel.run(tier) if (konly or not only) else (0, None)
+    if konly:
+        return krc
+
+    def post(ev, rep):
+        if kev:
+            ev['coverage']['kernel_checks'] = kev['coverage']
+            ev['violations'] += kev['violations']
+    return krc | runner.run_property('C16', allc, tier=tier, chunk=1, minify=True, post=post,
                                title='the same references as C02/C06/C07/C08/C14 plus minify-specific templates, on output built with -m',
                                bounds={'corpus': 'own templates (identifier exhaustion up to %d names in a scope, shadowing, local types in closures, awkward string literals, adjacent minus) + C07/C08/C14/C02 corpora + a third of the C06 var-var/shift/conversion matrix' % (60 if tier == 'quick' else 720),
-                                       'outside': 'programs outside the corpus; removeWhitespace/newVariable as standalone kernels'},
+                                       'outside': 'programs outside the corpus'},
                                cfg={'maxDepth': 800, 'maxPaths': 40000, 'timeoutMs': 10000, 'maxWallMs': 600000}, z3_timeout_ms=15000)
 
 
